@@ -171,6 +171,19 @@ func loadRegions(
 			}
 			overlaps := f(NewRegionInfo(region, nil))
 			for _, item := range overlaps {
+				if item.GetID() != region.GetId() {
+					// A cached region displaced by this record. Its record goes only if it is this very
+					// version; another version stored under the id is judged when the pass reaches it.
+					stored := &metapb.Region{}
+					ok, err := loadRegion(kv, encryptionKeyManager, item.GetID(), stored)
+					if err != nil {
+						return err
+					}
+					if !ok || stored.GetRegionEpoch().GetVersion() != item.GetRegionEpoch().GetVersion() ||
+						stored.GetRegionEpoch().GetConfVer() != item.GetRegionEpoch().GetConfVer() {
+						continue
+					}
+				}
 				if err := deleteRegion(kv, item.GetMeta()); err != nil {
 					return err
 				}
